@@ -78,6 +78,7 @@
 use std::borrow::Borrow;
 use std::fmt::{self, Debug, Formatter};
 use std::hash::{BuildHasher, Hash};
+use std::alloc::Layout;
 use std::mem;
 
 use hashbrown::hash_map::DefaultHashBuilder;
@@ -691,22 +692,47 @@ where
 
     fn try_reallocate(&mut self, new_capacity: usize) -> Result<(), TryReserveError> {
         let new_table = RawTable::try_with_capacity(new_capacity)?;
-        self.move_to_table(new_table);
-        Ok(())
+        self.try_move_to_table(new_table)
     }
 
-    fn move_to_table(&mut self, mut old_table: RawTable<Entry<K, V>>) {
+    fn try_move_to_table(&mut self, mut old_table: RawTable<Entry<K, V>>)
+            -> Result<(), TryReserveError> {
+        // Hashing runs code of the key type, which may panic. So, all hashes
+        // are computed before the first entry is moved. If hashing panics,
+        // the cache is still intact.
+
         let hasher = make_hasher(&self.hash_builder);
+        let len = self.table.len();
+        let mut hashes = Vec::new();
+        hashes.try_reserve_exact(len)
+            .map_err(|_| TryReserveError::AllocError {
+                layout: Layout::array::<u64>(len)
+                    .unwrap_or(Layout::new::<u64>())
+            })?;
+
+        unsafe {
+            for bucket in self.table.iter() {
+                hashes.push(hasher(bucket.as_ref()));
+            }
+        }
+
         mem::swap(&mut self.table, &mut old_table);
 
-        for entry in old_table.into_iter() {
+        // The old table is iterated in the same order as above.
+
+        for (entry, hash) in old_table.into_iter().zip(hashes) {
             let mut prev_entry = entry.prev;
             let mut next_entry = entry.next;
-            let bucket = self.table.insert(hasher(&entry), entry, &hasher);
+
+            // The new table has sufficient capacity for all entries.
+
+            let bucket = unsafe { self.table.insert_no_grow(hash, entry) };
             let entry_ptr = EntryPtr::new(bucket.as_ptr());
             prev_entry.get_mut().next = entry_ptr;
             next_entry.get_mut().prev = entry_ptr;
         }
+
+        Ok(())
     }
 
     fn reallocate(&mut self, new_capacity: usize) {
@@ -978,7 +1004,7 @@ where
             // with fewer buckets, may offer more. Never raise the capacity.
 
             if new_table.capacity() < self.capacity() {
-                self.move_to_table(new_table);
+                self.try_move_to_table(new_table).unwrap();
             }
         }
     }
